@@ -18,6 +18,19 @@ impl VM {
         let entry_no_gc_depth = self.no_gc_depth;
         let result = self.run_frames();
         if result.is_err() {
+            // closures created by the failed run may have escaped (stored in a global, in a
+            // captured variable of an older closure, ...): the locals they capture live in the
+            // registers of the frames that are dropped now. Close those upvalues while the
+            // registers still hold the values - an upvalue left open would read whatever a
+            // later call puts into that register, be shared with an unrelated closure that
+            // captures the same (base, register) later, and is no root for the collector.
+            if let Some(lowest) = self.frames[entry_depth.min(self.frames.len())..]
+                .iter()
+                .map(|f| f.base)
+                .min()
+            {
+                self.close_upvalues_from(lowest);
+            }
             self.frames.truncate(entry_depth);
             // the @no_gc functions that were on the dropped frames never reached their
             // ExitNoGc: leave the collector exactly as enabled as it was before the run
